@@ -16,6 +16,7 @@ func init() {
 			"Added in round 2: R3 also covers the callers — every reader handed to ReadArguments in the module is the caller's own reader, never a read-ahead wrapper (bufio.NewReader ...) created for the call, and varutil.SplitArguments returns nothing but ReadArguments' results (no second tokeniser); R8 also requires that no iteration of InjectArgs' argument loop goes round without a SetValue (a skipped argument shifts the positional numbering). " +
 			"Added in round 5: R5 also requires that the end of the heredoc body is decided by strings.HasSuffix(body, terminator) with the terminator built from the input (an incremental matcher that resets on mismatch misses a terminator preceded by a partial match); R9 between two Reads the byte just read was put into an argument / marker / body or was found equal to a constant on that path (path-sensitive over short-circuit conditions) — no input byte is dropped silently (e.g. by a comment option whose zero default is the NUL byte). " +
 			"Added in round 6: R1 also accepts the last-element index inside a function literal of the tokeniser when it is guarded by a non-emptiness test of the same list; R5 treats two String() readings of one strings.Builder with no write in between as the same string; R8 follows a positional-key helper with a precomputed table of the first keys. " +
+			"Added in round 7: R5 accepts bytes.HasSuffix beside strings.HasSuffix and judges tail cuts of byte slices as well. " +
 			"NOT decided: the tokenisation semantics as a whole (quotes, escapes, heredoc content), reversibility against a reference quoting function.",
 	})
 }
@@ -260,7 +261,7 @@ func rulesC17(c *Ctx) {
 		facts := factsFor(f)
 		eachInstr(f, func(b *ssa.BasicBlock, _ int, in ssa.Instruction) {
 			sl, ok := in.(*ssa.Slice)
-			if !ok || sl.High == nil || !isStringy(sl.X.Type()) {
+			if !ok || sl.High == nil || (!isStringy(sl.X.Type()) && !isByteSlice(sl.X.Type())) {
 				return
 			}
 			bo, ok := sl.High.(*ssa.BinOp)
@@ -275,7 +276,7 @@ func rulesC17(c *Ctx) {
 				if !isCall || !k.pol {
 					continue
 				}
-				if cf := call.Call.StaticCallee(); cf == nil || qualName(cf) != "strings.HasSuffix" {
+				if cf := call.Call.StaticCallee(); cf == nil || !isHasSuffixFn(cf) {
 					continue
 				}
 				if !sameStringValue(call.Call.Args[0], sl.X, call, sl) {
@@ -318,7 +319,7 @@ func rulesC17(c *Ctx) {
 								if !isCall || !k.pol {
 									continue
 								}
-								if cf := call.Call.StaticCallee(); cf == nil || qualName(cf) != "strings.HasSuffix" {
+								if cf := call.Call.StaticCallee(); cf == nil || !isHasSuffixFn(cf) {
 									continue
 								}
 								if !sameStringValue(call.Call.Args[0], arg, call, ci.Instr) {
@@ -349,7 +350,7 @@ func rulesC17(c *Ctx) {
 		var term *CallInfo
 		for _, g := range append([]*ssa.Function{f}, privateHelpersOf(f)...) {
 			for _, ci := range Calls(g) {
-				if ci.Static != nil && qualName(ci.Static) == "strings.HasSuffix" {
+				if ci.Static != nil && isHasSuffixFn(ci.Static) {
 					if _, isConst := constString(ci.Arg(1)); !isConst {
 						term = ci
 					}
@@ -1220,4 +1221,10 @@ func isPositionalKeyTable(v ssa.Value, h *ssa.Function) bool {
 		}
 	}
 	return okAll && n > 0
+}
+
+// isHasSuffixFn: strings.HasSuffix or its byte-slice twin.
+func isHasSuffixFn(f *ssa.Function) bool {
+	n := qualName(f)
+	return n == "strings.HasSuffix" || n == "bytes.HasSuffix"
 }
